@@ -12,6 +12,7 @@ fn main() {
     let mut out = Out::create(&args[3]);
     match args[1].as_str() {
         "bitops" => vharness::bitops::replay(&args[2], &mut out),
+        "prim" => vharness::prim::replay(&args[2], &mut out),
         other => {
             eprintln!("unknown domain {}", other);
             std::process::exit(2);
